@@ -13,7 +13,7 @@ warnings.filterwarnings('ignore')
 
 # ----------------------------------------------------------------------------------------------- spec language
 def _num(v):
-    return float(v) if v in ('nan', 'inf', '-inf') else v
+    return float(v) if v in ('nan', 'inf', '-inf') else None if v == 'none' else v
 
 
 def _nums(v):
@@ -243,6 +243,8 @@ def base_universe():
          ['f', 'inf'], ['f', '-inf'], ['np', 'float64', 'inf'], A('float', [1.0, 'inf']), L(['f', 'inf']), L(['f', '-inf']), Dd(a=['f', 'inf']),
          # floats that differ by less than any tolerance one might use for "closeness": equal only when every cell matches exactly
          ['f', 1.000001], ['f', 1e-9], A('float', [1.0, 2.000001]), A('float', [1e-9, 2.0]), A('float', [0.0, 2.0]), L(['f', 1.000001]), ['series', 'float', [1.0, 2.000001], None],
+         # object cells: None and NaN are different cells (eq(None, nan) is False), in arrays, Series and frames alike
+         ['oarr', [none, sa]], ['oarr', [nan, sa]], ['series', 'object', ['none', 'a'], None], ['series', 'object', ['nan', 'a'], None],
          L(), T(), Dd(), Dd('Dict'), A('float', []), A('int', [1]), A('float', [1.0]), A('int', [1, 2]), A('float', [1.0, 2.0]), A('int', [2, 1]),
          A('float', [1.0, 'nan']), A('float32', [1.0, 'nan']), A('int', [[1, 2]]), A('int', [[1], [2]]), A('int', [[1, 2], [3, 4]]), A('int', [[1, 2], [3, 5]]),
          A('int', [[1], [1]]), A('int', [[1, 1], [1, 1]]), A('int', [[1]]), A('str', ['a']), A('str', ['a', 'b']), A('bool', [True]),
